@@ -87,7 +87,7 @@ def check(ctx, mod, ref, buf, want_text=True, sample=False):
             ctx.fail("C08:values.%s" % cls, "rc=%02x: reports key/asc/ascq %r/%r/%r, buffer carries %r/%r/%r" % (rc, got_key, got_asc, got_ascq, key, asc, ascq), wit)
         if getattr(exc, "response_code", None) != rc or bool(getattr(exc, "valid", 0)) != bool(buf[0] & 0x80):
             ctx.fail("C08:values.response_code_or_valid", "response_code/valid misreported", wit)
-        if text is not None and want_text:
+        if text is not None and want_text and (got_key, got_asc, got_ascq) == (key, asc, ascq):
             t = ref.norm(text)
             if (asc, ascq) in ref.ASC:
                 ctx.count("text_cross_checks")
